@@ -120,8 +120,9 @@ func (mp *MotionProcessor) Process(rawFrame []byte) error {
 		mp.stopConstantRecorder()
 		return err
 	}
-	atomic.AddUint32(&mp.CurrentFrame, 1)
 	mp.process(frame)
+	// Counted once the frame is what GetRecentFrame returns.
+	atomic.AddUint32(&mp.CurrentFrame, 1)
 	mp.processConstantRecorder(frame)
 	mp.processSnapshot(frame)
 	return nil
